@@ -209,6 +209,8 @@ Definition binop_val (op : binop) (a b : val) : option val :=
   | VA l, _ => bc_l op b a
   | _, VA r => bc_r op a b
   | VS x, VS y => match op with Add => Some (VS (x ++ y)) | _ => None end   (* str + str *)
+  | VL l, VL r => match op with Add => Some (VL (l ++ r)) | _ => None end   (* list + list: a new list *)
+  | VT l, VT r => match op with Add => Some (VT (l ++ r)) | _ => None end   (* tuple + tuple *)
   | _, _ => arith op a b
   end.
 
@@ -1425,6 +1427,27 @@ Definition run_gen_log (f : func) (args : list val) : outcome :=
       | Returned _ => Stuck
       | o => o
       end
+  end.
+
+(** calling a function that logs effect calls ([SLog], warnings.warn): returns the pair
+    (result, log), the log being read in the environment in which the TOP-LEVEL statement that returned
+    started (entries logged inside that last statement itself are not observed; in the functions tied so
+    far the [SLog]s and the final `return` are top-level statements).  Falling off the end returns None
+    with the complete log. *)
+Fixpoint exec_list_log (l : list stmt) (env : list (string * val)) : outcome :=
+  match l with
+  | [] => match lookup env "$log" with Some lg => Returned (VT [VNone; lg]) | None => Stuck end
+  | s :: t => match exec s env with
+              | Normal env' => exec_list_log t env'
+              | Returned v => match lookup env "$log" with Some lg => Returned (VT [v; lg]) | None => Stuck end
+              | o => o
+              end
+  end.
+
+Definition run_log (f : func) (args : list val) : outcome :=
+  match bind_targets (f_params f) args [("$log", VL [])] with
+  | None => Stuck
+  | Some env => exec_list_log (f_body f) env
   end.
 
 End Eval.
